@@ -504,6 +504,10 @@ Definition y_expr (l : list stmt) (y : id) : option expr :=
 
 Definition insert_at (i : nat) (st : stmt) (l : list stmt) : list stmt := firstn i l ++ st :: skipn i l.
 
+(* `ipred in s.free_symbols` *)
+Definition mentions_stmt (x : id) (s : stmt) : bool :=
+  match s with Assign y e => Pos.eqb y x || memp x (free_syms e) | Ode _ r => memp x r end.
+
 Definition set_additive (T : templates) (y eps_a : id) (epsilons : list id) (l : list stmt) : option (list stmt) :=
   match y_expr l y with
   | None => None
@@ -522,9 +526,7 @@ Definition set_proportional (T : templates) (dt : dtrans) (zp : bool) (y eps_p i
       let l1 := reassign l y (subs s_x f err) in
       if zp then
         let g := Assign ipredadj (subs s_f f (t_prop_guard T)) in
-        let ind := match find_first_from (fun s => match s with
-                                                   | Assign x e => Pos.eqb x ipredadj || memp ipredadj (free_syms e)
-                                                   | Ode _ r => memp ipredadj r end) l1 0 with
+        let ind := match find_first_from (mentions_stmt ipredadj) l1 0 with
                    | Some i => i | None => 0 end in
         Some (insert_at ind g l1)
       else Some l1
@@ -565,6 +567,12 @@ Definition subs_stmt_sym (s : id) (t : expr) (st : stmt) : stmt :=
   match st with Assign x e => Assign x (subs s t e) | Ode a r => Ode a r end.
 Definition subs_stmts_sym (s : id) (t : expr) (l : list stmt) : list stmt := map (subs_stmt_sym s t) l.
 
+(* set_iiv_on_ruv (dv = None): every statement: eps := eps * exp(eta), for each (epsilon, eta) *)
+Definition iiv_on_ruv_expr (T : templates) (eps eta : id) : expr :=
+  subs_map [(s_eps, Sym eps); (s_eta, Sym eta)] (t_iiv_on_ruv T).
+Definition set_iiv_on_ruv (T : templates) (pairs : list (id * id)) (l : list stmt) : list stmt :=
+  fold_left (fun acc p => subs_stmts_sym (fst p) (iiv_on_ruv_expr T (fst p) (snd p)) acc) pairs l.
+
 (* ==================================================================================================== *)
 (* add_allometry: for each (parameter, exponent) in turn, P = P * (X / Z) ** T after P's last assignment  *)
 (* ==================================================================================================== *)
@@ -598,6 +606,21 @@ Definition add_iov (occ : id) (items : list iov_item) (l : list stmt) : list stm
   fold_left (fun acc it => subs_stmts_sym (ie_eta it) (Sym (ie_etai it)) acc) items l.
 Definition remove_iov (iov_etas : list id) (l : list stmt) : list stmt :=
   fold_left (fun acc e => subs_stmts_sym e (Num 0) acc) iov_etas l.
+
+(* the distributions add_iov declares (_add_iov_etas_disjoint / _add_iov_etas_joint): for a group of eta positions
+   [indices] and K occasion levels; ename i k = eta_name(i, k), oname i j = omega_iov_name(i, j).
+   One eta: K independent normals sharing the variance oname i i.  Several: for every level one joint normal over the
+   group's etas of that level, all K with the SAME covariance matrix [oname (min i j) (max i j)]. *)
+Record rvdist := { rd_names : list id; rd_sigma : list (list id) }.
+Definition iov_dists_group (ename oname : nat -> nat -> id) (indices : list nat) (K : nat) : list rvdist :=
+  match indices with
+  | [i] => map (fun k => {| rd_names := [ename i k]; rd_sigma := [[oname i i]] |}) (seq 1 K)
+  | _ => map (fun k => {| rd_names := map (fun i => ename i k) indices;
+                          rd_sigma := map (fun j => map (fun i => oname (Nat.min i j) (Nat.max i j)) indices) indices |})
+             (seq 1 K)
+  end.
+Definition iov_dists (ename oname : nat -> nat -> id) (groups : list (list nat)) (K : nat) : list rvdist :=
+  flat_map (fun g => iov_dists_group ename oname g K) groups.
 
 (* the IOV eta of the row's occasion *)
 Definition iov_value (r : env) (occ : id) (levels : list (Q * id)) : option Q :=
